@@ -63,7 +63,7 @@ def run(tier):
             cases.append(mk_case(cid, steps, {"gc": "default", "trace": 1, "dropcheck": 1}, mods,
                                  globals_=[("N", f64_bits(n * mult))]))
     ck.log("%d programs x {n, 2n} iterations" % len(progs))
-    results = common.run_batch("hookfast", cases, timeout=1500)
+    results = common.run_batch("hookfast", cases, timeout=1500, case_timeout=240)
     by = {}
     for case, res in zip(cases, results):
         cid = case["id"]
